@@ -67,6 +67,9 @@ type unit struct {
 	kf      *knownFindings
 	ghostTypes map[string]types.Type
 	rawBoxed bool
+	codeLoad bool // a load instruction of the code (not a contract expression) is being executed
+	rawStored  map[string]bool // typed heaps that received an integer-made pointer (`rawstores`)
+	typedLoads map[string]bool // typed pointer heaps loaded in this unit
 	cutHeaders map[*ssa.BasicBlock]bool
 	modBases map[string]bool
 	cutDone map[*ssa.BasicBlock]bool
@@ -458,6 +461,19 @@ func (s *state) loadAt(t types.Type, ref, off string, fld *fieldRef) Val {
 		out = append(out, x)
 	}
 	v := Val{T: t, S: out}
+	for _, l := range ls {
+		if strings.HasSuffix(l.path, ".ref") {
+			if s.u.rawStored[name] {
+				panic(engineErr("load of " + name + " after a raw pointer was stored into it in this unit " + shortStack()))
+			}
+			if s.u.codeLoad {
+				if s.u.typedLoads == nil {
+					s.u.typedLoads = map[string]bool{}
+				}
+				s.u.typedLoads[name] = true
+			}
+		}
+	}
 	if s.u.eng.rawFieldOK(name) {
 		// a field declared to hold raw (integer-made) pointers: its reference leaf is the RAW marker
 		for i, l := range ls {
@@ -549,6 +565,16 @@ func (s *state) storeAt(t types.Type, ref, off string, fld *fieldRef, v Val) {
 		if strings.HasSuffix(l.path, ".ref") && isRawRef(v.S[i]) && !s.u.eng.rawFieldOK(name) {
 			if strings.HasPrefix(name, "B_") {
 				s.u.rawBoxed = true // boxed into an interface: must not be unboxed in this unit
+			} else if s.u.ct != nil && s.u.ct.rawStores {
+				// `rawstores`: the unit may store integer-made pointers into typed fields as
+				// long as it never loads that field again (the load-time fact would be wrong)
+				if s.u.typedLoads[name] {
+					panic(engineErr("raw pointer stored into typed heap " + name + " that this unit also loads"))
+				}
+				if s.u.rawStored == nil {
+					s.u.rawStored = map[string]bool{}
+				}
+				s.u.rawStored[name] = true
 			} else {
 				panic(engineErr("raw pointer stored into typed heap " + name + " (declare `rawfield`)"))
 			}
